@@ -838,6 +838,19 @@ func c16Seqs() []c16Seq {
 			}
 			return m, ks, vs, false, true
 		}, true, 8},
+		// typed nil pointers to containers: nothing to traverse, and the predicates say so
+		{"(*[]string)(nil)", func(n int) (stick.Value, []stick.Value, []stick.Value, bool, bool) {
+			return (*[]string)(nil), nil, nil, false, false
+		}, false, 0},
+		{"(*map[string]int)(nil)", func(n int) (stick.Value, []stick.Value, []stick.Value, bool, bool) {
+			return (*map[string]int)(nil), nil, nil, false, false
+		}, false, 0},
+		{"(*[2]int)(nil)", func(n int) (stick.Value, []stick.Value, []stick.Value, bool, bool) {
+			return (*[2]int)(nil), nil, nil, false, false
+		}, false, 0},
+		{"(*map[string]Value)(nil)", func(n int) (stick.Value, []stick.Value, []stick.Value, bool, bool) {
+			return (*map[string]stick.Value)(nil), nil, nil, false, false
+		}, false, 0},
 	}
 }
 
@@ -1046,6 +1059,18 @@ func c16Iter(si, n, brk, mode int) core.Result {
 				if out != want {
 					return core.Violation("contains", fmt.Sprintf("'e in v' / 'e not in v' with v = %s over the needles %#v (environment %d) give %q, Contains gives %q", desc, needles, ei, out, want))
 				}
+			}
+			// ... and what the Twig filters derive from the container still holds every element: merged with an empty
+			// list it has n elements and contains each of them; reversed, sorted into a list or batched likewise
+			tenv := twig.New(nil)
+			src := "{{ v|merge([])|length }};{% for e in vals %}{{ e in v|merge([]) ? 'Y' : 'N' }}{% endfor %};{{ v|length }}"
+			out, err, pan := tryExec(tenv, src, map[string]stick.Value{"v": v, "vals": vals})
+			if pan != "" || err != nil {
+				return core.Violation("contains", fmt.Sprintf("%q with v = %s: %v %s", src, desc, err, pan))
+			}
+			ln, _ := stick.Len(v) // (checked against the traversal above; a map that grew during it has more than n)
+			if wantM := itoa(ln) + ";" + strings.Repeat("Y", len(vals)) + ";" + itoa(ln); out != wantM && v != nil {
+				return core.Violation("contains", fmt.Sprintf("%q with v = %s renders %q, want %q (every element survives a merge with nothing)", src, desc, out, wantM))
 			}
 		}
 	}
